@@ -209,12 +209,24 @@ func c34(c *Ctx) {
 		for _, ns := range callsIn(rq, Callee(pfp, pb+".newSCData")) {
 			c.MustFact(ns, "new-subchannel-only-if-absent", Truth(ExtractOf(func(v ssa.Value) bool { return v == get.Value() }, 1), false))
 		}
+		for _, ns := range callsIn(rq, Callee(pfp, pb+".newSCData")) {
+			ns := ns
+			c.Unreachable(con, "no-connect-after-failed-subchannel-creation", NotNil(ExtractOf(func(v ssa.Value) bool { return v == ns.Value() }, 1)))
+			// after a successful creation the walk goes on to use the subchannel (it does not give up)
+			c.EnteredOnlyWhen(returnAfter(rq, ns), "walk-abandoned-only-when-creation-failed", NotNil(ExtractOf(func(v ssa.Value) bool { return v == ns.Value() }, 1)))
+		}
 		// addressList walk
 		inc := c.fn(pfp, "addressList.increment")
 		for _, st := range storesToField(inc, c.field(pfp, "addressList", "idx")) {
 			c.ValueIs(st, st.Val, "advance-by-one", BinOpV(token.ADD, FieldLoad(c.field(pfp, "addressList", "idx")), ConstInt(1)))
 			c.MustFact(st, "advance-only-while-valid", Truth(CallRes(Callee(pfp, "addressList.isValid"), 0), true))
 		}
+	})
+	c.Ob("back-to-idle", "R3", "subchannel callback: the policy drops back to IDLE (remaining subchannels shut down, address list reset, idle picker) only when the selected subchannel left raw READY, or went from CONNECTING straight to IDLE", 2, func() {
+		rs := one(c, "addressList.reset in the state callback", callsIn(us, Callee(pfp, "addressList.reset")))
+		fNew := c.field("balancer", "SubConnState", "ConnectivityState")
+		c.EnteredOnlyWhen(rs.Block(), "idle-only-after-losing-READY", Cmp(FieldLoad(fRaw), token.EQL, k("Ready")), Cmp(FieldLoad(fNew), token.EQL, k("Idle")))
+		c.Unreachable(rs, "no-idle-drop-from-other-states", Cmp(FieldLoad(fRaw), token.NEQ, k("Ready")), Cmp(FieldLoad(fRaw), token.NEQ, k("Connecting")))
 	})
 	c.Ob("pass-progress", "R3", "a subchannel failing in the first pass is marked failed and the pass moves on (next address) or is concluded; after the pass an IDLE subchannel is reconnected; a resolver update in TRANSIENT_FAILURE restarts a pass without reporting CONNECTING; the address list's cursor helpers compare with the list length", 9, func() {
 		// marking
@@ -387,6 +399,16 @@ func c34(c *Ctx) {
 			c.Expect(len(callsIn(uc, Callee(pfp, "interleaveAddresses"))) == 1 && len(callsIn(uc, Callee(pfp, "deDupAddresses"))) == 1, inst, uc, "one-dedup-one-interleave", "expected one de-duplication and one interleaving")
 			for _, rc := range callsIn(uc, Callee(pfp, pb+".reconcileSubConnsLocked")) {
 				c.ArgIs(rc, 1, "reconciles-against-the-installed-list", AllOrigins(il))
+			}
+		}
+		// the existing connection is kept (no new pass) only when the previously selected subchannel exists, is raw READY, and its address is in the new list
+		for _, sk := range callsIn(uc, Callee(pfp, "addressList.seekTo")) {
+			kept := Truth(func(v ssa.Value) bool { return v == sk.Value() }, true)
+			for _, r := range returnsOf(uc) {
+				if r.Block() == uc.Recover || !c.HasFact(r, kept) {
+					continue
+				}
+				c.MustFact(r, "connection-kept-only-if-previously-READY", Cmp(FieldLoad(fRaw), token.EQL, k("Ready")))
 			}
 		}
 		dd := c.fn(pfp, "deDupAddresses")
@@ -562,4 +584,53 @@ func AnyBoolPhi(v ssa.Value) bool {
 	}
 	b, ok := p.Type().Underlying().(*types.Basic)
 	return ok && b.Kind() == types.Bool
+}
+
+// returnAfter: the block of the first return that the block of `after`
+// dominates and that is entered directly from a test on the call's results.
+func returnAfter(fn *ssa.Function, after ssa.Instruction) *ssa.BasicBlock {
+	ab := after.Block()
+	for _, s := range ab.Succs {
+		for x := s; x != nil; {
+			if _, ok := x.Instrs[len(x.Instrs)-1].(*ssa.Return); ok && len(x.Preds) == 1 {
+				return x
+			}
+			break
+		}
+	}
+	// one level deeper (if err != nil { if logger.V(2) {...}; return })
+	for _, s := range ab.Succs {
+		seen := map[*ssa.BasicBlock]bool{}
+		var walk func(x *ssa.BasicBlock) *ssa.BasicBlock
+		walk = func(x *ssa.BasicBlock) *ssa.BasicBlock {
+			if seen[x] || !s.Dominates(x) {
+				return nil
+			}
+			seen[x] = true
+			if _, ok := x.Instrs[len(x.Instrs)-1].(*ssa.Return); ok {
+				return s
+			}
+			for _, y := range x.Succs {
+				if r := walk(y); r != nil {
+					return r
+				}
+			}
+			return nil
+		}
+		if r := walk(s); r != nil {
+			// the arm s leads only to a return: s is the abandoning arm
+			onlyReturn := true
+			for x := range seen {
+				for _, y := range x.Succs {
+					if !s.Dominates(y) {
+						onlyReturn = false
+					}
+				}
+			}
+			if onlyReturn {
+				return s
+			}
+		}
+	}
+	panic(missingStep{"no abandoning arm after " + instrStr(after)})
 }
